@@ -18,11 +18,12 @@ from sim import frames as F  # noqa: E402
 c18._CELLS = c18.all_cells()         # scan all candidates
 out = collections.OrderedDict()
 for cell in c18.all_cells():
-    for nrg in (1, 3):
+    for nrg, newrows in ((1, 12), (3, 150), (12, 400)):
         case = {'prop': 'C18', 'seed': 1, 'idx': 1, 'tier': 'quick',
                 'knobs': {'page': None, 'v2': False}, 'vseed': 7,
                 'codec': None, 'newcodec': None, 'state': cell['state'],
-                'nrg': nrg, 'steps': [{'cell': cell['id']}]}
+                'nrg': nrg, 'newrows': newrows,
+                'steps': [{'cell': cell['id']}]}
         r = c18.execute(case)
         keys = [v['class_key'].split(':')[0] for v in r['violations']]
         out.setdefault(cell['id'], []).append(
